@@ -51,7 +51,10 @@ def check(rep, tier):
     import scipy.integrate as si
     recs = []
     for s_i in range(2 if tier == "quick" else 8):
-        recs += sr.catalogue(rng, tier, n0=2, n1=1, n2=1 if s_i == 0 else 0)
+        # 1D: shelf and VISF (top supercooled before the bottom); 2D: jacket (radially varying rate field), thorough also shelf / VISF
+        recs += sr.catalogue(rng, tier, dims=("homogeneous", "spatial_1D"), n0=2, n1=1, confs=["VISF", "shelf"][s_i % 2:] + ["VISF"])
+    recs += sr.catalogue(rng, tier, dims=("spatial_1D",), confs=["VISF"], n1=1, early_vacuum=True)
+    recs += sr.catalogue(rng, tier, dims=("spatial_2D",), confs=["jacket"] if tier == "quick" else ["jacket", "shelf", "VISF"], n2=1 if tier == "quick" else 3)
     cases, labs, certs = [], [], []
     for rec in recs:
         S, dt, lab, c = rec["S"], rec["dt"], rec["label"], rec["S"].const
